@@ -1,3 +1,4 @@
+import IsobarV.Event.Drv
 import IsobarV.Interp.Drv
 import IsobarV.Clock.Drv
 import IsobarV.Auto.Drv
@@ -19,4 +20,5 @@ def main (args : List String) : IO UInt32 := do
   | ["auto"] => IsobarV.Auto.Drv.main; return 0
   | ["clock"] => IsobarV.Clock.Drv.main; return 0
   | ["interp"] => IsobarV.Interp.Drv.main; return 0
+  | ["event"] => IsobarV.Event.Drv.main; return 0
   | _ => IO.eprintln s!"usage: driver <suite>; unknown: {args}"; return 2
